@@ -36,7 +36,7 @@ pub mod kinds {
         TOTUPLE = 40, FROMTUPLE = 41, ARRTOVEC = 42, VECTOARR = 43, ARRTOBSLICE = 44, BSLICETOARR = 45, BOXNEW = 46, UNBOX = 47, BOXINTOVEC = 48,
         BOXINTOBSLICE = 49, VECTOBOX = 50, BSLICETOBOX = 51, BOXINTOITER = 52, VINEXT = 53, VINEXTBACK = 54, BOXMAPREPLACE = 55, BOXZIPKEEPLEFT = 56,
         BOXFOLDDROP = 57, BOXCLONE = 58, VECTOVI = 59, ITERTRYCOLLECT = 60, ITERTRYCOLLECTBOX = 61, VITRYCOLLECT = 62, ZIPPLAINREF = 63, ZIPPLAINMUT = 64, ZIPPLAINOWNED = 65, ZIPPLAINLEFT = 66,
-        ZIPPLAINLEFTREF = 67, BOXZIPPLAIN = 68,
+        ZIPPLAINLEFTREF = 67, BOXZIPPLAIN = 68, ITERCLONEFROM = 69,
     }
 }
 use kinds::*;
@@ -209,6 +209,13 @@ fn enabled(pool: &[M], caps: Caps) -> Vec<Op> {
                 if room_c(1) && room_e(len) {
                     v.push(op1(ITERCLONE, i, 0, 0));
                 }
+                // clone_from: this iterator (at whatever position it has reached) is the destination, any other
+                // iterator of the same type-level length the source
+                for (j, d) in pool.iter().enumerate() {
+                    if j != i && d.k == ITER && d.n == c.n && room_e(d.ids.len().saturating_sub(len)) {
+                        v.push(op2(ITERCLONEFROM, i, j));
+                    }
+                }
                 v.push(op1(ITERFOLD, i, 0, 0));
                 v.push(op1(ITERRFOLD, i, 0, 0));
                 v.push(op1(ITERCOUNT, i, 0, 0));
@@ -350,6 +357,12 @@ fn apply_model(op: Op, mut t: Vec<M>) -> Vec<M> {
             let len = it.ids.len();
             let c = M { cl: true, ..fresh(ITER, it.n, len) };
             vec![it, c]
+        }
+        ITERCLONEFROM => {
+            let dst = a.unwrap();
+            let src = b.take().unwrap();
+            let len = src.ids.len();
+            vec![M { cl: true, ..fresh(ITER, dst.n, len) }, src]
         }
         ITERLAST => {
             let it = a.unwrap();
